@@ -42,6 +42,7 @@
       writer_trace_fuel_noshrink                          resp. <= S |file|
    4. C01_closed /          the round trip with concrete fuel and no wf_file hypothesis
       C01_closed_noshrink *)
+From Mcap Require ConstsTie LayoutTie. (* regenerated ties to /repo's source that this property's model relies on *)
 From Coq Require Import List NArith ZArith Bool.
 From Coq.Strings Require Import Byte.
 From Mcap Require Import Bytes GoSem Crc32 Records RecordsFacts Writer WriterFactsA WriterFactsB
